@@ -637,6 +637,7 @@ pub fn run(ctx: &Ctx) -> &'static str {
     );
     if ctx.tier == Tier::Thorough {
         concurrent_stress(ctx);
+        crate::fuzzrun::campaign(ctx, "c18_control", 300);
     }
     "exploration"
 }
